@@ -11,4 +11,5 @@ CONSTANT ShapeD = {1, 8, 17, 130}
 CONSTANT Tighten = 0
 INVARIANT LayoutValid
 INVARIANT CandidatesLegal
+CONSTRAINT Frontier
 CHECK_DEADLOCK FALSE
